@@ -78,6 +78,8 @@ class FaultPlan:
         self.armed = False
         self.reads = 0
         self.writes = 0
+        self.closes = 0
+        self.resets = 0
         self.pending_empty = 0
         self.silent = False
         self.hits = []
@@ -85,6 +87,7 @@ class FaultPlan:
     def arm(self):
         self.armed = True
         self.reads = self.writes = 0
+        self.closes = self.resets = 0
         self.pending_empty = 0
         self.silent = False
         self.hits = []
@@ -105,6 +108,20 @@ class FaultPlan:
             return None
         idx, self.writes = self.writes, self.writes + 1
         f = self._find("write", idx)
+        if f is not None:
+            self.hits.append(f)
+        return f
+
+    def on_other(self, op):
+        """op in ('close', 'reset'): faults placed on close() / reset_input_buffer()."""
+        if not self.armed:
+            return None
+        idx = getattr(self, op + "s" if op == "close" else "resets")
+        if op == "close":
+            self.closes += 1
+        else:
+            self.resets += 1
+        f = self._find(op, idx)
         if f is not None:
             self.hits.append(f)
         return f
@@ -190,13 +207,21 @@ class FakePort:
         return data
 
     def close(self):
-        self.log.add("close", port=self.name)
+        ev = self.log.add("close", port=self.name)
+        f = self.plan.on_other("close")
+        if f is not None and f["kind"] == "raise":
+            ev["raised"] = f["exc"]
+            raise make_exc(f["exc"], "injected close fault")
         self.is_open = False
 
     def reset_input_buffer(self):
-        self.log.add("reset_input", port=self.name)
+        ev = self.log.add("reset_input", port=self.name)
         if not self.is_open:
             raise serial.serialutil.PortNotOpenError()
+        f = self.plan.on_other("reset")
+        if f is not None and f["kind"] == "raise":
+            ev["raised"] = f["exc"]
+            raise make_exc(f["exc"], "injected reset_input_buffer fault")
         self.board.out.clear()
 
     flushInput = reset_input_buffer
